@@ -212,9 +212,12 @@ func parseFlags(s string) (script string, per map[string]map[string]string) {
 func classify(flags map[string]string, symptom, err, mismatch string, cmdsOfSecondPlan []string) string {
 	onlySGrp := len(cmdsOfSecondPlan) > 0
 	onlyLists := len(cmdsOfSecondPlan) > 0
+	sgClass := flags["sgchg"] == "1" && flags["sgsent"] == "1"
 	for _, c := range cmdsOfSecondPlan {
 		if !strings.HasPrefix(c, "setsgrp:") {
 			onlySGrp = false
+		} else if sgClass && flags["mixed"] == "1" {
+			continue // both classes in one vsys: the re-sent service-group belongs to F-C03a, the rest is judged below
 		}
 		k, _, _ := strings.Cut(c, ":")
 		switch k {
@@ -471,6 +474,17 @@ func (c *checker) runCase(in caseInput, deep bool) (devVsys []panos.VerifVsys, r
 				c.fail("refused_not_converged", classify(fl, "refused_not_converged", r.Err, r.Mismatch, nil),
 					fmt.Sprintf("approve of vsys %s stops at request %d of %d (%s: %s) and leaves a vsys that is not equivalent to the target (first difference: %s)",
 						name, r.Accepted+1, len(cmds), r.Err, cmds[r.Accepted], r.Mismatch), in, map[string]any{"error": r.Err})
+			}
+			if r.Equiv == "1" {
+				// equivalent by content, but does the tool ever report 'no change' again?
+				d2, s2 := renderPair(r.Tree, b)
+				p2 := planReal(d2, s2, "", "")
+				per2, _, _ := c.tie("plan on state after refusal", caseInput{Dev: d2, Spoc: s2, Shared: in.Shared, Mode: "after-refusal"}, p2)
+				if per2 != nil && len(per2[name]) != 0 {
+					c.fail("refused_not_converged", classify(fl, "refused_not_converged", r.Err, r.Mismatch, nil),
+						fmt.Sprintf("approve of vsys %s stops at request %d of %d (%s: %s); the next compare still reports changes: %s",
+							name, r.Accepted+1, len(cmds), r.Err, cmds[r.Accepted], strings.Join(per2[name], ";")), in, map[string]any{"error": r.Err})
+				}
 			}
 			res.Count("oracle:refused")
 			if !deep {
